@@ -23,7 +23,7 @@ import (
 
 // ---- hook programs ----
 type c16HookProgram struct {
-	Kind        string             `json:"kind"` // const | raw
+	Kind        string             `json:"kind"` // const | raw | ordered | echo
 	Labels      map[string]*string `json:"labels"`
 	Annotations map[string]*string `json:"annotations"`
 	StatusMode  string             `json:"statusMode"` // "" (omitted) | null | echo | const
@@ -80,6 +80,38 @@ func (h *c16HookProgram) answer(url string, req c16J) (int, map[string]string, [
 	resp := c16J{}
 	finalizing, _ := req["finalizing"].(bool)
 	atts := h.Attachments
+	// the observed attachments, by "kind/name"
+	observed := map[string]c16J{}
+	if cm, ok := req["attachments"].(map[string]interface{}); ok {
+		for _, g := range cm {
+			if gm, ok := g.(map[string]interface{}); ok {
+				for _, o := range gm {
+					if om, ok := o.(map[string]interface{}); ok {
+						md, _ := om["metadata"].(map[string]interface{})
+						observed[fmt.Sprint(om["kind"], "/", md["name"])] = om
+					}
+				}
+			}
+		}
+	}
+	switch h.Kind {
+	case "ordered": // StatefulSet-like: one more than is there, in order, up to the full list
+		n := len(observed) + 1
+		if n < len(atts) {
+			atts = atts[:n]
+		}
+	case "echo": // what is observed comes back verbatim (resourceVersion, uid, bookkeeping and all); the rest from the template
+		echoed := []c16J{}
+		for _, a := range atts {
+			md, _ := a["metadata"].(map[string]interface{})
+			if o, ok := observed[fmt.Sprint(a["kind"], "/", md["name"])]; ok {
+				echoed = append(echoed, o)
+			} else {
+				echoed = append(echoed, a)
+			}
+		}
+		atts = echoed
+	}
 	if finalizing {
 		atts = h.FinalizeAttachments
 		observed := 0
@@ -233,6 +265,9 @@ type c16RoundSpec struct {
 	LateOps []c16ExtOp            `json:"lateOps"` // after the caches are taken, before the sync starts
 	MidOps  map[string][]c16ExtOp `json:"midOps"`  // request index -> ops applied just before that request
 	FaultOn []c16FaultOn          `json:"faultOn"`
+	// HideDiscovery: "apiVersion|resource" entries that discovery stops listing after the controller was
+	// built and before the sync (shown again afterwards)
+	HideDiscovery []string `json:"hideDiscovery"`
 }
 
 type c16Scenario struct {
@@ -249,6 +284,9 @@ type c16Scenario struct {
 	Setup     []c16ExtOp      `json:"setup"` // store edits after the warm-up
 	Rounds    []c16RoundSpec  `json:"rounds"`
 	Features  []string        `json:"features"`
+	// Converge > 0: instead of Rounds, fault-free syncs with fresh caches until one sends no write (at most
+	// Converge syncs), then one further sync; the store is recorded before the first and after the last
+	Converge int `json:"converge"`
 }
 
 func c16QueueKey(o c16J) string {
@@ -259,8 +297,20 @@ func c16QueueKey(o c16J) string {
 }
 
 type c16CaseRec struct {
-	Sc     *c16Scenario
-	Rounds []*c16RoundRec
+	Sc      *c16Scenario
+	Rounds  []*c16RoundRec
+	Initial []c16J // converge scenarios: the store before the first recorded sync
+	Final   []c16J // and after the last
+}
+
+func c16RoundWrites(r *c16RoundRec) int {
+	n := 0
+	for _, e := range r.Events {
+		if e.API != nil && e.API.Verb != "get" {
+			n++
+		}
+	}
+	return n
 }
 
 // freezeViews pins LIST to the current live content (a snapshot that later writes do not change).
@@ -280,7 +330,13 @@ func (w *c16World) freezeViews() {
 }
 
 func c16RunScenario(sc *c16Scenario) (*c16CaseRec, error) {
-	w := c16NewWorld()
+	refresh := time.Hour
+	for _, r := range sc.Rounds {
+		if len(r.HideDiscovery) > 0 {
+			refresh = 3 * time.Millisecond
+		}
+	}
+	w := c16NewWorldRefresh(refresh)
 	defer w.close()
 	progOf := func(url string) *c16HookProgram {
 		if sc.Other != nil && strings.Contains(url, "/"+sc.Other.Name+"/") {
@@ -329,6 +385,30 @@ func c16RunScenario(sc *c16Scenario) (*c16CaseRec, error) {
 	}
 	out := &c16CaseRec{Sc: sc}
 	w.freezeViews()
+	if sc.Converge > 0 {
+		out.Initial = w.srv.AllLive()
+		quiet := false
+		for i := 0; i < sc.Converge+1; i++ {
+			w.freezeViews()
+			b, err := w.c16Build(&sc.Ctl)
+			if err != nil {
+				return nil, err
+			}
+			rec := w.runSync(&sc.Ctl, b, key)
+			b.close()
+			out.Rounds = append(out.Rounds, rec)
+			if quiet {
+				break // that was the further sync after the first quiet one
+			}
+			if c16RoundWrites(rec) == 0 && rec.Result == "done" {
+				quiet = true
+			} else if i == sc.Converge-1 {
+				break // the bound is exhausted
+			}
+		}
+		out.Final = w.srv.AllLive()
+		return out, nil
+	}
 	for _, r := range sc.Rounds {
 		for _, op := range r.PreOps {
 			w.applyExt(op)
@@ -363,9 +443,24 @@ func c16RunScenario(sc *c16Scenario) (*c16CaseRec, error) {
 		if r.Key != "" {
 			k = r.Key
 		}
+		hideAll := func(hidden bool) error {
+			for _, h := range r.HideDiscovery {
+				parts := strings.SplitN(h, "|", 2)
+				if len(parts) == 2 && !w.hideFromDiscovery(parts[0], parts[1], hidden) {
+					return fmt.Errorf("the resource map never noticed that discovery changed for %s", h)
+				}
+			}
+			return nil
+		}
+		if err := hideAll(true); err != nil {
+			return nil, err
+		}
 		rec := w.runSync(&sc.Ctl, b, k)
 		w.srv.SetBeforeRequest(nil)
 		b.close()
+		if err := hideAll(false); err != nil {
+			return nil, err
+		}
 		out.Rounds = append(out.Rounds, rec)
 	}
 	return out, nil
@@ -600,7 +695,15 @@ func c16CoqCase(c *c16CaseRec) string {
 	for _, r := range c.Rounds {
 		rounds = append(rounds, c16CoqRound(r))
 	}
-	return fmt.Sprintf("mkDCase %s [%s] %s", c16CoqCfg(&c.Sc.Ctl), strings.Join(rounds, ";\n "), vh.CoqStringList(c.Sc.Features))
+	objs := func(l []c16J) string {
+		parts := []string{}
+		for _, o := range l {
+			parts = append(parts, vh.MustCoqJSON(map[string]interface{}(o)))
+		}
+		return "[" + strings.Join(parts, "; ") + "]"
+	}
+	return fmt.Sprintf("mkDCase %s [%s] %s %s %s", c16CoqCfg(&c.Sc.Ctl), strings.Join(rounds, ";\n "), vh.CoqStringList(c.Sc.Features),
+		objs(c.Initial), objs(c.Final))
 }
 
 // ---- the test entry point ----
@@ -612,7 +715,7 @@ func TestVerif_C16(t *testing.T) {
 	// the same scenarios and records serve two properties: C16 (default) and the decorator leg of C06
 	prop, checkFn := "C16", "C16_check"
 	switch os.Getenv("VERIF_PROP") {
-	case "C06d", "C10d", "C17d", "C03d", "C12d", "C13d":
+	case "C06d", "C10d", "C17d", "C03d", "C12d", "C13d", "C01d":
 		prop = os.Getenv("VERIF_PROP")
 		checkFn = prop + "_check"
 	}
